@@ -318,6 +318,7 @@ func c18History(r *rng, nOps int, script *[]*string) (types []reflect.Type, gts 
 		gts, types = append(gts, nil), append(types, t)
 	}
 	var strs []string
+	strsOf := map[int][]string{}
 	for k := 0; k < nOps; k++ {
 		op := histOp{ty: r.intn(len(types)), form: r.intn(3)}
 		if r.intn(2) == 0 || len(strs) == 0 {
@@ -331,6 +332,9 @@ func c18History(r *rng, nOps int, script *[]*string) (types []reflect.Type, gts 
 			}
 		} else {
 			op.h = strs[r.intn(len(strs))]
+			if own := strsOf[op.ty]; len(own) > 0 && r.intn(2) == 0 {
+				op.h = own[r.intn(len(own))] // a string this very type marshalled (mostly accepted; the rest is mostly rejected)
+			}
 			if r.intn(8) == 0 { // strings the parser itself rejects (unterminated / empty identifier), of various lengths
 				op.h = []string{"$", "$abc", "$$x", "$,", "$unterminated-identifier", "$a"}[r.intn(6)] + r.str(r.intn(3), "ab")
 			} else if r.intn(3) == 0 && len(op.h) > 0 {
@@ -353,6 +357,7 @@ func c18History(r *rng, nOps int, script *[]*string) (types []reflect.Type, gts 
 			rec = append(rec, got)
 			if got != nil {
 				strs = append(strs, *got)
+				strsOf[op.ty] = append(strsOf[op.ty], *got)
 			}
 		}
 	}
